@@ -271,7 +271,7 @@ def run(ctx):
             if mo == "s outoffuel":      # a generated "safe" case the model says diverges: treat like the risky ones
                 risky.append(c)
         t0 = time.time()
-        header, iout = run_batch(exe, env, ["sort %s %d %d %d 25" % c for c, _ in term], max_fail=3)
+        header, iout = run_batch(exe, env, ["sort %s %d %d %d 15" % c for c, _ in term], max_fail=2)
         tick("impl:sort", t0)
         for (c, mo), io in zip(term, iout):
             evals += 1
